@@ -8,6 +8,7 @@ import Edn.Proofs.IdentSound
 import Edn.Proofs.Sound
 import Edn.Proofs.CharSound
 import Edn.Proofs.RejectDoc
+import Edn.Proofs.RejectDocX
 
 namespace Edn.Properties.C10
 open Edn.Model Edn.Proofs
@@ -348,5 +349,82 @@ example : errIs (read Cfg.core {} "[a::b]".toUTF8.toList) .invalidSyntax 1 1 = t
 example : errIs (read Cfg.core {} "  ; c".toUTF8.toList) .unexpectedEof 5 5 = true := by decide +kernel
 example : (match (read Cfg.core { eofValue := true } "  ; c".toUTF8.toList).out with | .eofValue => true | _ => false) = true := by decide +kernel
 example : (match (read Cfg.core { eofValue := true } "#_ 1 ; c".toUTF8.toList).out with | .eofValue => true | _ => false) = true := by decide +kernel
+
+/-! ## Every configuration: nothing outside the grammar is accepted
+
+  `Edn.Spec.FormX cfg N S` is the grammar of all four combinations of the two feature flags (see
+  `Edn.Properties.C03`); `numJOf cfg` / `strJOf cfg` (`Edn.Proofs.RejectDocX`) plug in the exact
+  number / string judgements of the configuration - `CoreNum`, `CljNum` (with `_` separators under
+  both flags), `ExpNum`; ordinary literals, and text blocks with the experimental flag - so no
+  abstract hypothesis is left.  With both flags off this is `document_outside_grammar_rejected`. -/
+
+section EveryConfiguration
+open Edn.Spec Edn.Proofs.RejectDocX
+
+/-- **An ill-formed document is rejected in every configuration** (no reader registry): an input no
+    prefix of which is a form of the configuration's grammar within the nesting limit yields an
+    error with a code other than OK, or - only when the caller supplied an end-of-input value - that
+    value.  Never a tree. -/
+theorem ill_formed_document_is_rejected_in_every_configuration (cfg : Cfg) (opts : Opts) (hreg : opts.registry = none)
+    (input : Bytes)
+    (hnot : ¬ ∃ k a tok rest, k ≤ Edn.Generated.Tables.maxNestingDepth ∧ input = tok ++ rest ∧
+      FormX cfg (numJOf cfg) (strJOf cfg) k a tok rest) :
+    (∃ code es ee, (read cfg opts input).out = .error code es ee ∧ code ≠ .ok) ∨
+    ((read cfg opts input).out = .eofValue ∧ opts.eofValue = true) :=
+  not_in_grammarX_rejected cfg opts hreg input hnot
+
+/-- … so it is never read as a value … -/
+theorem ill_formed_document_is_never_a_value (cfg : Cfg) (opts : Opts) (hreg : opts.registry = none) (input : Bytes)
+    (hnot : ¬ ∃ k a tok rest, k ≤ Edn.Generated.Tables.maxNestingDepth ∧ input = tok ++ rest ∧
+      FormX cfg (numJOf cfg) (strJOf cfg) k a tok rest) :
+    ∀ v, (read cfg opts input).out ≠ .value v :=
+  not_in_grammarX_never_a_value cfg opts hreg input hnot
+
+/-- … and, the other way round, **whatever is accepted is a prefix in the grammar**: a returned tree
+    means the input starts with a form of the configuration's grammar, within the nesting limit,
+    that denotes the tree's content (metadata included) -/
+theorem accepted_document_is_in_the_grammar (cfg : Cfg) (opts : Opts) (hreg : opts.registry = none) (input : Bytes) (v : Val)
+    (h : (read cfg opts input).out = .value v) :
+    ∃ k tok rest, k ≤ Edn.Generated.Tables.maxNestingDepth ∧ input = tok ++ rest ∧
+      FormX cfg (numJOf cfg) (strJOf cfg) k (stripM v) tok rest :=
+  accepted_is_grammarX_prefix cfg opts hreg input v h
+
+/-- the judgements are the ones of `Edn.Properties.C03`, per configuration (definitionally) -/
+example : numJOf Cfg.core = coreNumJ ∧ strJOf Cfg.core = rawStrJ := ⟨rfl, rfl⟩
+example : numJOf ⟨true, false⟩ = cljNumJ ⟨true, false⟩ ∧ strJOf ⟨true, false⟩ = rawStrJ := ⟨rfl, rfl⟩
+example : numJOf ⟨false, true⟩ = expNumJ ∧ strJOf ⟨false, true⟩ = expStrJ := ⟨rfl, rfl⟩
+example : numJOf ⟨true, true⟩ = cljNumJ ⟨true, true⟩ ∧ strJOf ⟨true, true⟩ = expStrJ := ⟨rfl, rfl⟩
+
+/-- non-vacuity of the hypothesis: `^` alone has no prefix in the grammar of the Clojure flag (by
+    completeness: the reader rejects it) -/
+example : ¬ ∃ k a tok rest, k ≤ Edn.Generated.Tables.maxNestingDepth ∧ "^".toUTF8.toList = tok ++ rest ∧
+    FormX ⟨true, false⟩ (numJOf ⟨true, false⟩) (strJOf ⟨true, false⟩) k a tok rest :=
+  no_prefix_of_not_value _ _ (by decide +kernel)
+
+end EveryConfiguration
+
+/-- the outcome of a read in the four configurations core, Clojure flag, experimental flag, both:
+    `none` for a value (or the end-of-input outcome), `some code` for an error -/
+def rejections (input : Bytes) : List (Option Err) :=
+  [Cfg.core, ⟨true, false⟩, ⟨false, true⟩, ⟨true, true⟩].map fun cfg =>
+    match (read cfg {} input).out with
+    | .error c _ _ => some c
+    | _ => none
+
+/-- `^` alone: a metadata marker with nothing behind it where the Clojure flag is set (elsewhere `^`
+    is an identifier byte and this is the symbol `^`) -/
+example : rejections "^".toUTF8.toList = [none, some .unexpectedEof, none, some .unexpectedEof] := by decide +kernel
+/-- `#:a{:x 1 :a/x 2}`: two spellings of one key with the Clojure flag; a keyword is no tag without it -/
+example : rejections "#:a{:x 1 :a/x 2}".toUTF8.toList =
+    [some .invalidSyntax, some .duplicateKey, some .invalidSyntax, some .duplicateKey] := by decide +kernel
+/-- `1/0`: no number in any configuration (no ratios without the Clojure flag, no zero denominator with it) -/
+example : rejections "1/0".toUTF8.toList =
+    [some .invalidNumber, some .invalidNumber, some .invalidNumber, some .invalidNumber] := by decide +kernel
+/-- `"""⏎abc`: an unclosed text block with the experimental flag (without it the empty string `""`
+    is the first form, and `edn_read` reads one form) … -/
+example : rejections "\"\"\"\nabc".toUTF8.toList = [none, none, some .invalidString, some .invalidString] := by decide +kernel
+/-- … inside a vector it is an unterminated string everywhere -/
+example : rejections "[\"\"\"\nabc]".toUTF8.toList =
+    [some .invalidString, some .invalidString, some .invalidString, some .invalidString] := by decide +kernel
 
 end Edn.Properties.C10
